@@ -22,11 +22,14 @@
      8  a kept definition differs from the original (beyond resolution info)
      10 a constant, typedef or enum of the input is missing from the output
      11 the input is not a well-formed resolved program (the case is useless)
-     12 TrimAST panicked                                                            *)
+     12 TrimAST panicked
+     13 the input is outside the domain of the theorem C16_trim_resolves_all (not accepted by
+        C05's [resolvable], struct-like lists not by kind, or a base-service reference
+        that is not the include the specification chooses)                          *)
 From Coq Require Import List Arith Bool NArith ZArith.
 From Coq.Strings Require Import Byte.
 From Verif Require Import Base.Bytes Idl.Ast Idl.AstUtil Idl.Trim Idl.TrimSpec.
-From Verif Require Idl.Resolve.
+From Verif Require Idl.Resolve Idl.ResolveSpec Idl.ResolvableSpec Idl.ResolvableConst.
 Import ListNotations.
 
 Record case := mkcase {
@@ -264,6 +267,32 @@ Definition resolves_to_itself (obs : program) : bool :=
   | Idl.Resolve.Error _ => false
   end.
 
+(* ---- the input lies in the domain of the theorem C16_trim_resolves_all: it is accepted by
+   C05's decidable test [resolvable], the three struct-like lists hold what their names say,
+   and the recorded reference of every base service is the include the specification chooses
+   (the hypothesis on type occurrences, [occ_good], is what C05 proves of every result of the
+   resolver; it is not re-evaluated here) *)
+Definition kinds_ok (p : program) : bool :=
+  forallb (fun e => forallb (fun k => forallb (fun s => sl_kind_eqb (sl_category s) k) (sl_list k (snd e))) all_kinds) p.
+
+Definition sv_ref_spec_ok (p : program) (f : file) (s : service) : bool :=
+  match split_type (sv_extends s) with
+  | [pre; m] =>
+    match Idl.ResolveSpec.spec_include p Idl.ResolveSpec.is_service_kind pre m (Idl.ResolveSpec.file_incs f) 0 with
+    | Some (i, _) => match sv_ref s with
+                     | Some r => beqb (ref_name r) m && Z.eqb (ref_index r) (Z.of_nat i)
+                     | None => false
+                     end
+    | None => false
+    end
+  | _ => is_none (sv_ref s)
+  end.
+Definition sv_refs_ok (p : program) : bool :=
+  forallb (fun e => forallb (sv_ref_spec_ok p (snd e)) (f_services (snd e))) p.
+
+Definition in_resolves_domain (p : program) : bool :=
+  Idl.ResolvableConst.resolvable p && kinds_ok p && sv_refs_ok p.
+
 (* ---------------------------------------------------------------- the method filter *)
 
 Section Filter.
@@ -343,7 +372,7 @@ Definition check (c : case) : list N :=
     | OutOfFuel, _ => [9%N]
     | _, _ => [1%N]
     end in
-  let wf := if wf_program p then [] else [11%N] in
+  let wf := (if wf_program p then [] else [11%N]) ++ (if in_resolves_domain p then [] else [13%N]) in
   let oracles :=
     match k_err c with
     | 0%N =>
